@@ -70,7 +70,8 @@ class CostModels(DictCBORSerializable):
 
     def to_shallow_primitive(self) -> dict:
         result: dict[bytes, Union[typing.List[Any], bytes]] = {}
-        for language in sorted(self.keys()):
+        # canonical CBOR: the one-byte integer keys of V2/V3 precede the two-byte bytestring key of V1
+        for language in sorted(self.keys(), key=lambda lang: (lang == 0, lang)):
             cost_model = self[language]
             if language == 0:
                 # Due to a bug in the Haskell implementation of ledger, we need to serialize the cost models twice.
